@@ -9,6 +9,7 @@ use midnight_proofs::{
 };
 use midnight_zk_stdlib::{MidnightCircuit, Relation};
 use midnight_zkir::{Instruction, IrType, IrValue, ZkirRelation};
+use rayon::iter::ParallelIterator;
 use vcore::catch;
 
 use crate::env::{intern, F};
